@@ -13,6 +13,7 @@
 #include <etl/_type_traits/bool_constant.hpp>
 #include <etl/_type_traits/is_copy_constructible.hpp>
 #include <etl/_type_traits/is_invocable_r.hpp>
+#include <etl/_type_traits/is_void.hpp>
 #include <etl/_utility/exchange.hpp>
 #include <etl/_utility/forward.hpp>
 #include <etl/_utility/swap.hpp>
@@ -61,7 +62,11 @@ struct inplace_func_vtable {
     template <typename C>
     explicit constexpr inplace_func_vtable(wrapper<C> /*ignore*/)
         : invoke_ptr{[](storage_ptr_t storagePtr, Args&&... args) -> R {
-            return (*static_cast<C*>(storagePtr))(static_cast<Args&&>(args)...);
+            if constexpr (is_void_v<R>) {
+                (*static_cast<C*>(storagePtr))(static_cast<Args&&>(args)...);
+            } else {
+                return (*static_cast<C*>(storagePtr))(static_cast<Args&&>(args)...);
+            }
         }}
         , copy_ptr{[](storage_ptr_t dstPtr, storage_ptr_t srcPtr) -> void {
             ::new (dstPtr) C{(*static_cast<C*>(srcPtr))};
